@@ -6,3 +6,4 @@ import PolyVerif.Props.C12
 import PolyVerif.Props.C10
 import PolyVerif.Props.C13
 import PolyVerif.Props.C08
+import PolyVerif.Props.C19
